@@ -59,10 +59,12 @@ def roots(tier, seed):
                                 opts = {"scale": scale, "disp": disp}
                                 if tier == "quick":
                                     opts["maxfev"] = 60 if n == 1 else 90
+                                elif n <= 2 and not disp:
+                                    opts["maxfev"] = 50 * n  # deviation roots: one run per (evaluation, answer)
                                 case = alpha.base_case(n, pats, "in", obj, cs, options=opts)
                                 case["tag"]["cons"] = cons
                                 case["tag"]["form"] = form
-                                case["explore"] = 1 if (tier == "thorough" and not disp) else 0
+                                case["explore"] = 1 if (tier == "thorough" and not disp and n <= 2) else 0
                                 out.append(case)
                                 if not disp and form == "nlc" and cons in ("ball_le", "nl_vec", "two_nl", "lin+nl"):
                                     c2 = dict(case)
